@@ -1,6 +1,6 @@
 #!/bin/bash
 # reftest.sh <patch>... : soundness control. Applies a behaviour-preserving change to a scratch worktree of /repo,
-# confirms the suite passes, runs EVERY quick check against it and reports any alarm (there must be none).
+# confirms the suite passes, runs EVERY quick check (or those named in REFTEST_IDS) against it and reports any alarm (there must be none).
 here=$(cd "$(dirname "$0")" && pwd)
 export GOFLAGS=-mod=mod GOPROXY=off GOSUMDB=off GOTOOLCHAIN=local
 bad=0
@@ -11,7 +11,7 @@ for patch in "$@"; do
   if ! git -C "$wt" apply "$patch"; then echo "DOES-NOT-APPLY $patch"; git -C /repo worktree remove --force "$wt"; continue; fi
   if ! (cd "$wt" && go build ./... && go test -vet=off -count=1 ./... >/dev/null 2>&1); then echo "SUITE-FAILS $patch"; git -C /repo worktree remove --force "$wt"; continue; fi
   alarms=""
-  for id in $(cd "$here" && python3 -c "import plan; print(' '.join(plan.PLAN))"); do
+  for id in ${REFTEST_IDS:-$(cd "$here" && python3 -c "import plan; print(' '.join(plan.PLAN))")}; do
     out=$(cd "$here" && VERIF_REPO_DIR="$wt" ./check $id quick 2>&1); rc=$?
     if [ $rc -ne 0 ]; then alarms="$alarms $id(rc=$rc)"; echo "--- $patch under $id:"; echo "$out" | grep -E -A2 "VIOLATION|INCONCL" | head -8; mkdir -p /tmp/refalarms; cp "$here"/failures/$id-* /tmp/refalarms/ 2>/dev/null; fi
   done
